@@ -153,7 +153,49 @@ def _show_ops(ops):
 
 # ------------------------------------------------------------------ implementation
 
+def _up_path(pl, t):
+    if not t:
+        return False
+    for x, y in zip(t, t[1:]):
+        if pl.get(x) != y:
+            return False
+    return t[-1] not in pl
+
+
+def _inv_bits(bc) -> str:
+    """the finder-side hypotheses of the theorems, evaluated on the real objects"""
+    cf = bc.chain_finder
+    pl, trees, dbt = cf.parent_lookup, cf.trees_from_bottom, cf.descendents_by_top
+    sound = all(t and t[0] == b and _up_path(pl, t) for b, t in trees.items()) and \
+        all(b in trees and trees[b][-1] == top for top, s in dbt.items() for b in s)
+    covers = all(any(h in t and b in dbt.get(t[-1], ()) for b, t in trees.items()) for h in pl)
+    c = bc._longest_chain_cache
+    cache = True if c is None else _up_path(pl, list(c) + [bc.parent_hash])
+    return "%d%d%d" % (sound, covers, cache)
+
+
+def impl_inv(op: str) -> str:
+    anchor, rev, hdrs, steps = parse_op(op)
+    _Script.rev = rev
+    bc = BlockChain(anchor, unlocked_block_storage={})
+    out = []
+    for k, body, rank in steps:
+        _Script.rank = rank
+        try:
+            if k == "A":
+                bc.add_headers([Hdr(h, *hdrs[h]) for h in body])
+            else:
+                bc.lock_to_index(body)
+            out.append(_inv_bits(bc))
+        except Exception as e:  # noqa: BLE001
+            out.append("err " + type(e).__name__)
+            break
+    return "ok " + ("|".join(out) if out else "~")
+
+
 def impl(op: str) -> str:
+    if op.startswith("c15inv "):
+        return impl_inv(op)
     if not op.startswith("c15 "):
         return "bad-op"
     anchor, rev, hdrs, steps = parse_op(op)
@@ -230,6 +272,13 @@ def _best_weight(anchor, delivered, hdrs, locked):
 
 
 def oracle(op: str, out: str):
+    if op.startswith("c15inv ") and out.startswith("ok"):
+        for i, o in enumerate([] if out == "ok ~" else out[3:].split("|")):
+            if o.startswith("err"):
+                return None   # judged on the twin `c15` op
+            if o != "111":
+                return "step %d: finder state sound/covering/cache-path = %s (the hypotheses of the C15 theorems fail)" % (i, o)
+        return None
     if not op.startswith("c15 ") or not out.startswith("ok"):
         return None
     anchor0, _rev, hdrs, steps = parse_op(op)
@@ -311,6 +360,8 @@ KNOWN: dict = {}
 
 
 def trivial(op: str) -> bool:
+    if op.startswith("c15inv "):
+        return True   # a second look at a history already counted
     _a, _r, hdrs, steps = parse_op(op)
     adds = [s for s in steps if s[0] == "A" and s[1]]
     if len(adds) < 2:
@@ -320,6 +371,8 @@ def trivial(op: str) -> bool:
 
 
 def neighbours(op, rng):
+    if op.startswith("c15inv "):
+        op = "c15" + op[6:]
     anchor, rev, hdrs, steps = parse_op(op)
     yield op
     yield show_op(anchor, not rev, hdrs, steps)
@@ -447,7 +500,11 @@ def random_history(rng, nmax=30):
 
 def gen(ctx, emit):
     rng = ctx.rng
-    E = lambda hist: emit(show_op(*hist), "history")  # noqa: E731
+    def E(hist):
+        op = show_op(*hist)
+        emit(op, "history")
+        if rng.random() < (0.15 if ctx.thorough else 0.4):
+            emit("c15inv" + op[3:], "finder-invariant")
     # boundary corpus: DESIGN §8 row 12 and relatives are in corpus/C15.txt; here the systematic part
     for n in (1, 2, 3):
         for hist in small_histories(n):
